@@ -126,10 +126,17 @@ def main(pid="C02"):
         suspects = []
         leaks = 0
         distinct = set()
-        for key, group in by_tree.items():
+        # the handlers live as long as a server would: the tree changes under them between requests
+        tree.set_slots({"L1": {"k": "absent", "to": "-"}, "idx": {"k": "absent", "to": "-"}})
+        long_lived = {True: StaticFileHandler(tree.root, enable_directory_listing=True),
+                      False: StaticFileHandler(tree.root, enable_directory_listing=False)}
+        keys = list(by_tree)
+        rnd.shuffle(keys)
+        for key in keys:
+            group = by_tree[key]
             slot = plain(group[0]["slot"])
             tree.set_slots(slot)
-            handler = StaticFileHandler(tree.root, enable_directory_listing=group[0]["listing"])
+            handler = long_lived[group[0]["listing"]]
             for s in group:
                 toks = list(s["path"])
                 p = spell(toks, s["trailing"])
